@@ -120,4 +120,10 @@ theorem wf_of_rest (t : Topo) (h : OK t) (hp : puOK t = true) (hm : memOK t = tr
     · exact obj_clauses_proved t h hp c hc hn o ho
     · exact hr.2 c hc (by simpa using hn) o ho
 
+/-- conversely the unproved clauses are implied by well-formedness: the reduction is an equivalence -/
+theorem restOK_of_wf (d : Dump) (h : WF d) : restOK d = true := by
+  unfold restOK
+  simp only [Bool.and_eq_true, List.all_eq_true, List.mem_filter, and_imp]
+  exact ⟨fun c hc _ => h.1 c hc, fun c hc _ o ho => h.2 c hc o ho⟩
+
 end Hw.Syn
